@@ -97,7 +97,7 @@ Definition run_tm (op : Z) (a : args) : args :=
   | 620 => ret (fun r => r)
              (do t <- tmx_make (lst 0 a) (lst 1 a) (lst 2 a);
               let '(_, outs) := tmx_run t t (map tmx_op_of (skipn 3 a) ++ tmx_closing) in
-              Ok (flat_map tmx_obs outs ++ [[0]]))
+              Ok (flat_map tmx_obs outs ++ [[0; 0]]))
   | 650 => [[0]; tm_layout (int 0 0 a) (int 0 1 a) (int 0 2 a) (int 0 3 a) (int 0 4 a)
                            (int 0 5 a) (int 0 6 a) (int 0 7 a) (lst 1 a) (lst 2 a)]
   | _ => [[1; 97]]
